@@ -33,6 +33,7 @@ def opts(tier):
     o.max_segments = 12
     o.many_segments_p = 0.008        # 100+ segments: anything keyed or batched by a block size
     o.long_run_p = 0.008             # 100+ consecutive metadata-less segments
+    o.very_long_run_p = 0.002        # 1000+ of them
     o.max_channels = 4
     o.p_no_meta = 0.25
     o.p_keep_list = 0.6
@@ -135,7 +136,9 @@ def generate(rng, tier):
         spec, w, _ = gen.gen_world(rng, o)
         if len(spec['segments']) >= 2:
             break
-    case = {'spec': spec, 'raw_ts': rng.random() < 0.5, 'forbidden': None}
+    # the lazy reader's first request is for the end of a channel (the latest values of a log), not for all of it
+    case = {'spec': spec, 'raw_ts': rng.random() < 0.5, 'forbidden': None,
+            'tail_first': rng.random() < (0.3 if len(spec['segments']) < 600 else 0.7)}
     if rng.random() < 0.15:
         for _ in range(5):
             r = inject_forbidden(rng, spec)
@@ -297,7 +300,7 @@ def inherited(spec):
     return False
 
 
-def read_all(st, name, w, raw_ts, lazy):
+def read_all(st, name, w, raw_ts, lazy, tail_first=False):
     src = st.source('simstream', name)
     tf = lib.TdmsFile.open(src, raw_timestamps=raw_ts) if lazy else lib.TdmsFile.read(src, raw_timestamps=raw_ts)
     try:
@@ -308,14 +311,18 @@ def read_all(st, name, w, raw_ts, lazy):
             for c in g.channels():
                 n = len(c)
                 out['len'][c.path] = n
-                out['data'][c.path] = ops.norm(c[:])
+                if not tail_first:
+                    out['data'][c.path] = ops.norm(c[:])
                 # a few windows and indices: lazily they go through the per-channel offset index
                 wins = []
-                for fn in (lambda: c.read_data(n // 2, 3), lambda: c[n // 3:], lambda: c[n - 1] if n else None,
-                           lambda: c.read_data(max(0, n - 2), None)):
+                fns = [lambda: c.read_data(n // 2, 3), lambda: c[n // 3:], lambda: c[n - 1] if n else None,
+                       lambda: c.read_data(max(0, n - 2), None)]
+                for fn in (fns[::-1] if tail_first else fns):
                     r, exc, _eo = ops.try_op(lambda: ops.norm(fn()))
                     wins.append(r if exc is None else ('exc', exc))
-                out['win'][c.path] = wins
+                out['win'][c.path] = wins[::-1] if tail_first else wins
+                if tail_first:
+                    out['data'][c.path] = ops.norm(c[:])
         return tf, out
     finally:
         if lazy:
@@ -375,8 +382,12 @@ def execute(case):
                 run = run + 1 if not sg.get('meta', True) else 0
                 if run >= 99:
                     res.probe('long-metadata-less-run')
+                if run >= 999:
+                    res.probe('very-long-metadata-less-run')
                     break
             ks = sorted(set([1, 2, 3, nseg // 2, nseg - 1, nseg] + list(range(17, nseg, 29))))     # a tailing reader that polls rarely
+            if nseg > 600:
+                ks = [nseg // 2, nseg]
         for k in ks:
             pre = dict(spec)
             pre['segments'] = spec['segments'][:k]
@@ -389,7 +400,7 @@ def execute(case):
             for lazy in (False, True):
                 for name in ('inh.tdms', 'exp.tdms'):
                     try:
-                        tf, out = read_all(st, name, w, raw_ts, lazy)
+                        tf, out = read_all(st, name, w, raw_ts, lazy, case.get('tail_first', False))
                     except Exception as exc:
                         if name == 'inh.tdms':
                             res.violations.append(V('C02.read-raises', 'after %d segment(s), %s read of the inherited encoding: '
